@@ -17,18 +17,18 @@ import (
 // objects made with go/types' own constructors, inserted into the scope the
 // type checker would have used, so Parent() is what the checker sets).
 const (
-	vkPkgType   = iota // type N ... at package scope
-	vkLocalType        // type N ... inside a function body
-	vkTypeParam        // func f[N any]()
-	vkAlias            // type N = int at package scope
-	vkPkgConst         // const N = 1 at package scope
-	vkLocalConst       // const N = 1 inside a function body
-	vkPkgFunc          // func N() at package scope
-	vkInitFunc         // func init() (not in any scope)
-	vkMethodVal        // func (T) N()
-	vkMethodPtr        // func (*T) N()
-	vkVar              // var N int at package scope
-	vkNil              // the package clause identifier (nil object)
+	vkPkgType    = iota // type N ... at package scope
+	vkLocalType         // type N ... inside a function body
+	vkTypeParam         // func f[N any]()
+	vkAlias             // type N = int at package scope
+	vkPkgConst          // const N = 1 at package scope
+	vkLocalConst        // const N = 1 inside a function body
+	vkPkgFunc           // func N() at package scope
+	vkInitFunc          // func init() (not in any scope)
+	vkMethodVal         // func (T) N()
+	vkMethodPtr         // func (*T) N()
+	vkVar               // var N int at package scope
+	vkNil               // the package clause identifier (nil object)
 	vkNumKinds
 )
 
@@ -45,7 +45,13 @@ type vDef struct {
 // Function(name) return the package-scope object of that name - never a
 // function-local declaration or a type parameter; MethodsOf(T, true) is exactly
 // T's declared methods and MethodsOf(T, false) those with value receivers.
-func Verif_C13_Tables(k int) {
+func Verif_C13_Tables(k int) { vTables(k, false) }
+
+// Verif_C13_TablesGeneric: the same with an additional generic type G[P any]
+// that symbolically has a value-receiver and a pointer-receiver method.
+func Verif_C13_TablesGeneric(k int) { vTables(k, true) }
+
+func vTables(k int, withGeneric bool) {
 	tpkg := types.NewPackage("example.com/m/p", "p")
 	fset := token.NewFileSet()
 	local := types.NewScope(tpkg.Scope(), token.NoPos, token.NoPos, "function body")
@@ -57,7 +63,7 @@ func Verif_C13_Tables(k int) {
 	defs := map[*ast.Ident]types.Object{ast.NewIdent("T"): tObj}
 	var made []vDef
 	made = append(made, vDef{vkPkgType, "T", tObj})
-	taken := map[string]bool{"T": true} // names already declared at package scope
+	taken := map[string]bool{"T": true, "G": true} // names already declared at package scope
 	noSig := types.NewSignatureType(nil, nil, nil, nil, nil, false)
 	for i := 0; i < k; i++ {
 		kind := verifsym.IntRange(0, vkNumKinds-1)
@@ -126,6 +132,42 @@ func Verif_C13_Tables(k int) {
 		made = append(made, vDef{kind, name, obj})
 	}
 
+	// a generic type G[P any] with (symbolically) a value- and a pointer-receiver
+	// method: the receiver of a method of a generic type is the INSTANTIATED type G[P]
+	var gNamed *types.Named
+	var gVal, gPtr types.Object
+	if withGeneric {
+		gObj := types.NewTypeName(token.Pos(2), tpkg, "G", nil)
+		gNamed = types.NewNamed(gObj, types.NewStruct(nil, nil), nil)
+		pObj := types.NewTypeName(token.Pos(3), tpkg, "P", nil)
+		pParam := types.NewTypeParam(pObj, types.NewInterfaceType(nil, nil))
+		gNamed.SetTypeParams([]*types.TypeParam{pParam})
+		tpkg.Scope().Insert(gObj)
+		defs[ast.NewIdent("G")] = gObj
+		made = append(made, vDef{vkPkgType, "G", gObj})
+		recvOf := func() *types.Named {
+			// what the checker records for `func (g G[P]) ...`: an instance over the method's own receiver type parameter
+			rp := types.NewTypeParam(types.NewTypeName(token.Pos(4), tpkg, "P", nil), types.NewInterfaceType(nil, nil))
+			inst, err := types.Instantiate(nil, gNamed, []types.Type{rp}, false)
+			if err != nil {
+				panic(err)
+			}
+			return inst.(*types.Named)
+		}
+		if verifsym.Bool() {
+			recv := types.NewVar(token.Pos(5), tpkg, "g", recvOf())
+			f := types.NewFunc(token.Pos(5), tpkg, "MV", types.NewSignatureType(recv, nil, nil, nil, nil, false))
+			defs[ast.NewIdent("MV")] = f
+			gVal = f
+		}
+		if verifsym.Bool() {
+			recv := types.NewVar(token.Pos(6), tpkg, "g", types.NewPointer(recvOf()))
+			f := types.NewFunc(token.Pos(6), tpkg, "MP", types.NewSignatureType(recv, nil, nil, nil, nil, false))
+			defs[ast.NewIdent("MP")] = f
+			gPtr = f
+		}
+	}
+
 	pp := &packages.Package{PkgPath: tpkg.Path(), Name: "p", Types: tpkg, Fset: fset, TypesInfo: &types.Info{Defs: defs}}
 	u := VerifNewUniverse(fset, map[string]Package{}, map[string]bool{}, nil, "")
 	// natively the iteration order of Defs is random: repeat, so that an
@@ -176,8 +218,51 @@ func Verif_C13_Tables(k int) {
 			}
 		}
 		verifsym.Assert(count == nF, "Functions() is not exactly the package-scope functions")
-		verifsym.Assert(len(p.MethodsOf(tNamed, true)) == nMethods, "MethodsOf(T, true) is not exactly T's declared methods")
-		verifsym.Assert(len(p.MethodsOf(tNamed, false)) == nValMethods, "MethodsOf(T, false) is not exactly the value-receiver methods")
+		// asked in this order on purpose: an answer must not disturb later answers
+		val1 := p.MethodsOf(tNamed, false)
+		all := p.MethodsOf(tNamed, true)
+		val2 := p.MethodsOf(tNamed, false)
+		verifsym.Assert(len(all) == nMethods, "MethodsOf(T, true) is not exactly T's declared methods")
+		verifsym.Assert(len(val1) == nValMethods && len(val2) == nValMethods, "MethodsOf(T, false) is not exactly the value-receiver methods")
+		for _, d := range made {
+			if d.kind != vkMethodVal && d.kind != vkMethodPtr {
+				continue
+			}
+			inAll, inVal1, inVal2 := 0, 0, 0
+			for _, m := range all {
+				if types.Object(m) == d.obj {
+					inAll++
+				}
+			}
+			for _, m := range val1 {
+				if types.Object(m) == d.obj {
+					inVal1++
+				}
+			}
+			for _, m := range val2 {
+				if types.Object(m) == d.obj {
+					inVal2++
+				}
+			}
+			verifsym.Assert(inAll == 1, "a declared method is missing from (or listed twice in) MethodsOf(T, true)")
+			wantVal := 0
+			if d.kind == vkMethodVal {
+				wantVal = 1
+			}
+			verifsym.Assert(inVal1 == wantVal && inVal2 == wantVal, "MethodsOf(T, false) does not list exactly the value-receiver methods, each once, on every call")
+		}
+		if withGeneric {
+			ng, ngv := 0, 0
+			if gVal != nil {
+				ng++
+				ngv++
+			}
+			if gPtr != nil {
+				ng++
+			}
+			verifsym.Assert(len(p.MethodsOf(gNamed, true)) == ng, "MethodsOf(G, true) is not exactly the declared methods of the generic type G")
+			verifsym.Assert(len(p.MethodsOf(gNamed, false)) == ngv, "MethodsOf(G, false) is not exactly the value-receiver methods of the generic type G")
+		}
 	}
 	verifsym.Reach("end")
 }
